@@ -193,7 +193,8 @@ func Ctx() sdk.Context {
 	if err := cms.LoadLatestVersion(); err != nil {
 		panic(err)
 	}
-	ctx := sdk.NewContext(cms, cmtproto.Header{Time: time.Unix(1_600_000_000, 0).UTC(), Height: 1, ChainID: "testchain"}, false, log.NewNopLogger())
+	writeLog = map[string]*[]writeRec{}
+	ctx := sdk.NewContext(recMultiStore{cms}, cmtproto.Header{Time: time.Unix(1_600_000_000, 0).UTC(), Height: 1, ChainID: "testchain"}, false, log.NewNopLogger())
 	return ctx.WithEventManager(sdk.NewEventManager())
 }
 
@@ -232,4 +233,101 @@ func EventAttr(ctx sdk.Context, typ string, k int, key string) string {
 		n++
 	}
 	return ""
+}
+
+// ---- write-set observation -----------------------------------------------------
+// Every Set/Delete on a store obtained through a vp.Ctx context is recorded, so that a
+// harness can assert which keys an operation wrote (frame conditions).
+
+type writeRec struct {
+	key []byte
+	del bool
+}
+
+var writeLog = map[string]*[]writeRec{}
+
+type recStore struct {
+	storetypes.KVStore
+	log *[]writeRec
+}
+
+func (s recStore) Set(key, value []byte) {
+	*s.log = append(*s.log, writeRec{key: append([]byte{}, key...)})
+	s.KVStore.Set(key, value)
+}
+func (s recStore) Delete(key []byte) {
+	*s.log = append(*s.log, writeRec{key: append([]byte{}, key...), del: true})
+	s.KVStore.Delete(key)
+}
+
+type recMultiStore struct {
+	storetypes.MultiStore
+}
+
+func (m recMultiStore) GetKVStore(k storetypes.StoreKey) storetypes.KVStore {
+	lg, ok := writeLog[k.Name()]
+	if !ok {
+		lg = &[]writeRec{}
+		writeLog[k.Name()] = lg
+	}
+	return recStore{KVStore: m.MultiStore.GetKVStore(k), log: lg}
+}
+
+// HasKey reports whether the named store holds the key (fork-free under the symbolic executor).
+func HasKey(ctx sdk.Context, store string, key []byte) bool {
+	return ctx.MultiStore().GetKVStore(StoreKey(store)).Has(key)
+}
+
+// StoreMark returns the number of writes (Set/Delete) made so far to the named store.
+func StoreMark(ctx sdk.Context, store string) int {
+	if lg, ok := writeLog[store]; ok {
+		return len(*lg)
+	}
+	return 0
+}
+
+// WrittenKey returns the key of the i-th write to the named store.
+func WrittenKey(ctx sdk.Context, store string, i int) []byte { return (*writeLog[store])[i].key }
+
+// WrittenIsDelete reports whether the i-th write was a Delete.
+func WrittenIsDelete(ctx sdk.Context, store string, i int) bool { return (*writeLog[store])[i].del }
+
+// ---- fork-free boolean helpers (the symbolic executor builds one term instead of branching) ----
+
+func And(bs ...bool) bool {
+	for _, b := range bs {
+		if !b {
+			return false
+		}
+	}
+	return true
+}
+
+func Or(bs ...bool) bool {
+	for _, b := range bs {
+		if b {
+			return true
+		}
+	}
+	return false
+}
+
+func Implies(a, b bool) bool { return !a || b }
+
+// SetIf runs f (which must only call store setters) if cond holds. Under the symbolic
+// executor the writes made by f are recorded as conditional on cond, without forking.
+func SetIf(cond bool, f func()) {
+	if cond {
+		f()
+	}
+}
+
+func BytesEq(a, b []byte) bool { return string(a) == string(b) }
+
+// IteU64 selects a or b without branching under the symbolic executor.
+func IteU64(c bool, a, b uint64) uint64 {
+	if c {
+		return a
+	}
+	return b
 }
